@@ -71,7 +71,8 @@ def run(ctx, chk):
         chk.fail('C08.2', 'distinct', 'status constants are not pairwise distinct: %s' % names, 'src/cpu.rs', None)
     adt = facts['adts']['emulator::InterruptState']
     discr = {v['name']: v['discr'] for v in adt['variants']}
-    opaque = [RNO, CORE + 'handle_interrupt', 'mem::MemoryAreas::run_clock_cycles', 'cpu::Registers::get_consumed_cycles']
+    opaque = [RNO, CORE + 'handle_interrupt', 'mem::MemoryAreas::run_clock_cycles', 'devices::io::IO::run_clock_cycles',
+              'cpu::Registers::get_consumed_cycles']
     ip = absint.Interp(facts, opaque=opaque, trust_asserts=('overflow',))
     st = ip.new_state()
     core = ip.arg_object(st, 'core')
@@ -162,7 +163,8 @@ def run(ctx, chk):
         fx = ctx.facts(cfg)
         pg = ctx.program(cfg)
         steps = [RI, CORE + 'run_code_block']
-        ipu = absint.Interp(fx, opaque=steps + [CORE + 'handle_interrupt', 'mem::MemoryAreas::run_clock_cycles'])
+        ipu = absint.Interp(fx, opaque=steps + [CORE + 'handle_interrupt', 'mem::MemoryAreas::run_clock_cycles',
+                                                'devices::io::IO::run_clock_cycles'])
         st = ipu.new_state()
         core = ipu.arg_object(st, 'core')
         rs = ipu.run(CORE + 'update', [core], st)
